@@ -353,8 +353,9 @@ type c08Observation struct {
 	Line    []byte
 	Writes  int
 	ErrOut  []byte
-	Panic   string
-	Hooks   int64 // calls of the observed logger's own hook
+	Panic   string `json:"-"`
+	PanicB  []byte // Panic for the trip through JSON (a panic text need not be valid UTF-8)
+	Hooks   int64  // calls of the observed logger's own hook
 	Foreign int64 // writes to sinks of the history while the call ran (seq only)
 	FHooks  int64 // calls of hooks of the history while the call ran (seq only)
 }
@@ -623,6 +624,7 @@ func c08FirstInProcess(raw json.RawMessage, op *c08Op) (*c08Observation, error) 
 	if err := json.Unmarshal(unhx(res.Impl.Obsv), &ob); err != nil {
 		return nil, err
 	}
+	ob.Panic, ob.PanicB = string(ob.PanicB), nil
 	return &ob, nil
 }
 
@@ -649,6 +651,7 @@ func c08Exec(raw json.RawMessage) Result {
 		out = c08RunCase(&op)
 	}
 	if op.K == "first" {
+		out.base.PanicB = []byte(out.base.Panic)
 		j, _ := json.Marshal(out.base)
 		return Result{Impl: map[string]any{"line": hx(out.base.Line), "obsv": hx(j), "timeout": false}, Oracle: ok(), NoModel: true, Shape: "first"}
 	}
